@@ -1142,4 +1142,222 @@ theorem bigIntMacro_panic (N : Nat) (hN : 0 < N) (s : List Char) (k : Int) (hk :
     · rw [if_pos h0]
     · rw [if_neg h0, if_pos (by omega)]
 
+/-! ## 6. decimal text of a number (`BigUint::to_string`) parses back -/
+
+theorem normDigits_append (r : Nat) (l1 l2 : List Char) :
+    normDigits r (l1 ++ l2) = match normDigits r l1, normDigits r l2 with
+      | some a, some b => some (a ++ b)
+      | _, _ => none := by
+  induction l1 with
+  | nil => simp only [List.nil_append, normDigits]; cases normDigits r l2 <;> rfl
+  | cons c t ih =>
+    simp only [List.cons_append, normDigits, ih]
+    by_cases hu : (c == '_') = true
+    · simp only [hu, if_true]
+    · simp only [hu]
+      by_cases hd : digitVal c < r
+      · simp only [hd, if_true]
+        cases normDigits r t <;> cases normDigits r l2 <;> rfl
+      · simp only [hd, if_false]
+        cases normDigits r l2 <;> rfl
+
+theorem digitChar_facts : ∀ d : Fin 10, digitVal (Nat.digitChar d) = d ∧
+    (Nat.digitChar d == '_') = false := by decide
+
+theorem normDigits_toDigits (n : Nat) :
+    ∃ ds, normDigits 10 (Nat.toDigits 10 n) = some ds ∧ digitsValueBE 10 ds = n := by
+  induction n using Nat.strongRecOn with
+  | _ n ih =>
+    rw [Nat.toDigits_eq_if (by omega)]
+    by_cases h : n < 10
+    · rw [if_pos h]
+      have ⟨f1, f2⟩ := digitChar_facts ⟨n, h⟩
+      simp only at f1 f2
+      refine ⟨[n], ?_, by simp [digitsValueBE]⟩
+      simp only [normDigits, f1, f2, Bool.false_eq_true, if_false, h, if_true, Option.map_some]
+    · rw [if_neg h]
+      obtain ⟨ds, h1, h2⟩ := ih (n / 10) (by omega)
+      have hm : n % 10 < 10 := Nat.mod_lt _ (by omega)
+      have ⟨f1, f2⟩ := digitChar_facts ⟨n % 10, hm⟩
+      simp only at f1 f2
+      refine ⟨ds ++ [n % 10], ?_, ?_⟩
+      · rw [normDigits_append, h1]
+        simp only [normDigits, f1, f2, Bool.false_eq_true, if_false, hm, if_true, Option.map_some]
+      · unfold digitsValueBE at h2 ⊢
+        rw [List.foldl_append, h2]
+        simp only [List.foldl_cons, List.foldl_nil]
+        omega
+
+theorem decimal_eq (n : Nat) : decimal n = Nat.toDigits 10 n := by
+  unfold decimal; exact Nat.toList_repr
+
+theorem decimal_digits (n : Nat) : ∀ c ∈ decimal n, c.isDigit = true := by
+  intro c hc
+  rw [decimal_eq] at hc
+  exact Nat.isDigit_of_mem_toDigits (by omega) (by omega) hc
+
+theorem uintParse_decimal (n : Nat) : uintParse 10 (decimal n) = some n := by
+  have hd := decimal_digits n
+  rw [uintParse_default]
+  · rw [decimal_eq]
+    obtain ⟨ds, h1, h2⟩ := normDigits_toDigits n
+    rw [h1, Option.map_some, h2]
+  · rw [decimal_eq]; exact Nat.toDigits_ne_nil
+  · intro t e
+    have := hd '_' (by rw [e]; simp)
+    exact absurd this (by decide)
+
+theorem decimal_head (n : Nat) : ∀ c t, decimal n = c :: t → isSign c = false :=
+  (uintParse_head 10 (by omega) _ n (uintParse_decimal n)).2
+
+/-- item 4: `BigUint::from_str(&n.to_string()) == Ok(n)` -/
+theorem bigUint_decimal (n : Nat) : bigUintFromStrRadix (decimal n) 10 = some n := by
+  rw [bigUint_other _ _ (by
+    intro t e
+    have := decimal_head n _ _ e
+    simp [isSign] at this), uintParse_decimal]
+
+theorem bigInt_decimal (n : Nat) : bigIntFromStrRadix (decimal n) 10 = some (n : Int) := by
+  rw [bigInt_other _ _ (decimal_head n), uintParse_decimal]; rfl
+
+theorem litInt_decimal (n : Nat) : litInt (decimal n) = some (n : Int) :=
+  bigInt_litInt _ _ (bigInt_decimal n)
+
+theorem strToLimbsU64_decimal (n : Nat) : strToLimbsU64 (decimal n) = .ok (true, hexLimbs n) := by
+  rw [strToLimbsU64_eq, litInt_decimal]
+  simp
+
+/-! ## 7. run-time twins: `TryFrom<BigUint>`, `FromStr for Fp` -/
+
+theorem bigUintToBytesLE_spec (v : Nat) :
+    leSum 256 (bigUintToBytesLE v) = v ∧ (∀ d ∈ bigUintToBytesLE v, d < 256) ∧
+    (v ≠ 0 → ∀ d, (bigUintToBytesLE v).getLast? = some d → d ≠ 0) ∧ bigUintToBytesLE v ≠ [] := by
+  unfold bigUintToBytesLE
+  by_cases hn : v = 0
+  · subst hn; simp [leSum]
+  · rw [if_neg hn, bytesLE_eq]
+    obtain ⟨h1, h2, h3, h4⟩ := digLE_spec 256 (by omega) v v (Nat.le_refl _)
+    exact ⟨h1, h2, fun _ => h3, h4 hn⟩
+
+/-- number of bytes: `≤ 8n` iff the value fits `n` limbs -/
+theorem bytes_length_le (v n : Nat) (hn : 0 < n) :
+    (bigUintToBytesLE v).length ≤ n * 8 ↔ v < B ^ n := by
+  obtain ⟨s1, s2, s3, s4⟩ := bigUintToBytesLE_spec v
+  have hpos := List.length_pos_iff.mpr s4
+  have hB : B ^ n = 256 ^ (n * 8) := by rw [← B_eq_256, ← pow_mul, Nat.mul_comm]
+  by_cases hv : v = 0
+  · subst hv
+    have : (bigUintToBytesLE 0).length = 1 := by decide
+    rw [this]
+    constructor
+    · intro _; exact Nat.pow_pos B_pos
+    · intro _; omega
+  · have ⟨d1, d2⟩ := digits_len_bounds 256 (by omega) _ s2 (s3 hv) s4
+    rw [s1] at d1 d2
+    rw [hB]
+    constructor
+    · intro h
+      exact Nat.lt_of_lt_of_le d2 (Nat.pow_le_pow_right (by omega) h)
+    · intro h
+      have : 256 ^ ((bigUintToBytesLE v).length - 1) < 256 ^ (n * 8) := Nat.lt_of_le_of_lt d1 h
+      have := (Nat.pow_lt_pow_iff_right (by omega : 1 < 256)).mp this
+      omega
+
+theorem bigIntTryFromBigUint_some (n v : Nat) (hn : 0 < n) (hv : v < B ^ n) :
+    bigIntTryFromBigUint n v = some (toLimbs n v) := by
+  have hle := (bytes_length_le v n hn).mpr hv
+  unfold bigIntTryFromBigUint
+  simp only
+  rw [if_neg (by omega)]
+  congr 1
+  obtain ⟨s1, s2, _, _⟩ := bigUintToBytesLE_spec v
+  have hval : value ((chunks 8 (bigUintToBytesLE v) (bigUintToBytesLE v).length).map limbOfBytes) = v := by
+    rw [limbOfBytes_eq, value_eq_leSum, ← B_eq_256, chunks_leSum 256 8 (by omega) _ _ (Nat.le_refl _)]
+    exact s1
+  have hwf : WF ((chunks 8 (bigUintToBytesLE v) (bigUintToBytesLE v).length).map limbOfBytes) := by
+    unfold WF
+    rw [limbOfBytes_eq, ← B_eq_256]
+    exact chunks_lt 256 8 (by omega) _ _ s2
+  have hlen : ((chunks 8 (bigUintToBytesLE v) (bigUintToBytesLE v).length).map limbOfBytes).length ≤ n := by
+    rw [List.length_map]
+    have ⟨_, c2⟩ := chunks_length 8 (by omega) (bigUintToBytesLE v).length (bigUintToBytesLE v)
+      (Nat.le_refl _)
+    omega
+  apply value_inj _ _ (padTo_wf _ _ hwf) (toLimbs_wf _ _)
+  · rw [padTo_length _ _ hlen, toLimbs_length]
+  · rw [padTo_value, hval, toLimbs_value, Nat.mod_eq_of_lt hv]
+
+theorem bigIntTryFromBigUint_none (n v : Nat) (hn : 0 < n) (hv : B ^ n ≤ v) :
+    bigIntTryFromBigUint n v = none := by
+  have hle := (bytes_length_le v n hn).not.mpr (by omega)
+  unfold bigIntTryFromBigUint
+  simp only
+  rw [if_pos (by omega)]
+
+theorem tmod_fix (k : Int) (p : Nat) (hp : 0 < p) :
+    (if Int.tmod k p < 0 then Int.tmod k p + p else Int.tmod k p) = k % (p : Int) := by
+  have hp' : (0 : Int) < p := by exact_mod_cast hp
+  have h1 := Int.tmod_lt_of_pos k hp'
+  have h2 := Int.lt_tmod_of_pos k hp'
+  have h3 : (p : Int) ∣ Int.tmod k p - k := Int.dvd_tmod_sub_self
+  have key : ∀ a : Int, 0 ≤ a → a < p → (p : Int) ∣ a - k → a = k % (p : Int) := by
+    intro a ha hlt hd
+    have : k ≡ a [ZMOD p] := (Int.modEq_iff_dvd).mpr hd
+    have e : k % (p : Int) = a % (p : Int) := this
+    rw [e, Int.emod_eq_of_lt ha hlt]
+  split
+  · apply key _ (by omega) (by omega)
+    have : Int.tmod k p + p - k = (Int.tmod k p - k) + p := by ring
+    rw [this]; exact Int.dvd_add h3 (Int.dvd_refl _)
+  · exact key _ (by omega) h1 h3
+
+/-- `Fp::from_str` on a string the decimal `BigInt` parser accepts -/
+theorem fpFromStr_spec (fl : Bool) (N p : Nat) (hN : 0 < N) (hodd : p % 2 = 1) (h1 : 1 < p)
+    (hlt : p < B ^ N) (s : List Char) (k : Int) (hk : bigIntFromStrRadix s 10 = some k) :
+    ∃ m, fpFromStr (mkCfg fl N p) s = some m ∧ Elem (mkCfg fl N p) p m ∧
+      (value m : Int) = (k % (p : Int) * ((B ^ N : Nat) : Int)) % (p : Int) := by
+  have hc := Ark.C01.mk_cfg_ok fl N p hN hodd h1 hlt
+  have hn : (mkCfg fl N p).n = N := rfl
+  have hp' : (0 : Int) < p := by exact_mod_cast (by omega : 0 < p)
+  have hnn : 0 ≤ k % (p : Int) := Int.emod_nonneg _ (by omega)
+  have hup : k % (p : Int) < p := Int.emod_lt_of_pos _ hp'
+  have hv : (k % (p : Int)).toNat < p := by omega
+  have hx : Limbs (mkCfg fl N p) (toLimbs N (k % (p : Int)).toNat) :=
+    ⟨by rw [hn]; exact toLimbs_length _ _, toLimbs_wf _ _⟩
+  have hxv : value (toLimbs N (k % (p : Int)).toNat) = (k % (p : Int)).toNat := by
+    rw [toLimbs_value, Nat.mod_eq_of_lt (by omega)]
+  obtain ⟨r, e1, e2, e3⟩ := Ark.C01.from_bigint_some hc hx (by rw [hxv]; exact hv)
+  refine ⟨r, ?_, e2, ?_⟩
+  · unfold fpFromStr
+    rw [hk]
+    simp only [hc.p_val, hn]
+    rw [tmod_fix k p (by omega), if_neg (by omega),
+      bigIntTryFromBigUint_some N _ hN (by omega)]
+    exact e1
+  · rw [e3, hxv, hn, int_mont_pos, Int.toNat_of_nonneg hnn, Int.emod_emod_of_dvd _ (Int.dvd_refl _)]
+
+theorem fpFromStr_none (c : MontCfg) (s : List Char) (hk : bigIntFromStrRadix s 10 = none) :
+    fpFromStr c s = none := by
+  unfold fpFromStr; rw [hk]
+
+/-- compile-time literal = run-time element -/
+theorem montFp_fpFromStr (fl : Bool) (N p : Nat) (hN : 0 < N) (hodd : p % 2 = 1) (h1 : 1 < p)
+    (hlt : p < B ^ N) (s : List Char) (k : Int) (hk : bigIntFromStrRadix s 10 = some k)
+    (m : List Nat) (hm : montFp (mkCfg fl N p) s = .ok m) :
+    fpFromStr (mkCfg fl N p) s = some m := by
+  have hl := bigInt_litInt s k hk
+  have hn : (mkCfg fl N p).n = N := rfl
+  by_cases hkl : k.natAbs < B ^ N
+  · obtain ⟨m1, a1, a2, a3⟩ := montFp_spec fl N p hN hodd h1 hlt s k hl hkl
+    obtain ⟨m2, b1, b2, b3⟩ := fpFromStr_spec fl N p hN hodd h1 hlt s k hk
+    have hmm : m1 = m := by rw [a1] at hm; injection hm
+    subst hmm
+    rw [b1]
+    congr 1
+    apply value_inj _ _ b2.wf a2.wf (by rw [b2.len, a2.len])
+    have : (value m2 : Int) = value m1 := by rw [a3, b3]
+    exact_mod_cast this
+  · rw [montFp_panic_big _ (by rw [hn]; exact hN) s k hl (by rw [hn]; omega)] at hm
+    cases hm
+
 end Ark.Lit
